@@ -351,8 +351,8 @@ Proof.
   split; [repeat split|]. split.
   { destruct (fl_rsl fl), (st_rsl (cl_set c)); cbn [fst snd]; split; reflexivity. }
   split.
-  { intros K g Hg. rewrite K in E4. cbn [Z.eqb Pos.eqb] in E4. rewrite Hg in E4.
-    destruct (memZ g (curves_to_list (cl_set c) 4)) eqn:M; [|discriminate E4].
+  { intros K g Hg. rewrite K in E3. cbn [Z.eqb Pos.eqb] in E3. rewrite Hg in E3.
+    destruct (memZ g (curves_to_list (cl_set c) 4)) eqn:M; [|discriminate E3].
     apply memZ_In in M. eapply in_curves_to_list. exact M. }
   split.
   { intros A. rewrite A in E0. destruct (fl_cert fl) as [sc|]; [|discriminate E0].
@@ -362,9 +362,9 @@ Proof.
     destruct (memZ sg _) eqn:M; [apply memZ_In; exact M|discriminate E0]. }
   split; [reflexivity|]. split; [reflexivity|]. split; [reflexivity|]. split.
   { intros sg Hsg. destruct (_ && _) in Hsg; [exact Hsg|]. destruct (_ && _) in Hsg; [exact Hsg|discriminate Hsg]. }
-  intros K b Hb. rewrite K in E4. cbn [Z.eqb Pos.eqb] in E4. rewrite Hb in E4.
-  destruct (b <? st_min_key (cl_set c)) eqn:L1; [discriminate E4|].
-  destruct (st_max_key (cl_set c) <? b) eqn:L2; [discriminate E4|].
+  intros K b Hb. rewrite K in E3. cbn [Z.eqb Pos.eqb] in E3. rewrite Hb in E3.
+  destruct (b <? st_min_key (cl_set c)) eqn:L1; [discriminate E3|].
+  destruct (st_max_key (cl_set c) <? b) eqn:L2; [discriminate E3|].
   apply Z.ltb_ge in L1. apply Z.ltb_ge in L2. lia.
 Qed.
 
@@ -490,7 +490,8 @@ Proof.
       intros r0 Hr; try discriminate Hr; try (eexists; reflexivity). discriminate E. }
   split.
   { intros P. rewrite P in E0. destruct (fl_cert fl) as [sc|]; [|discriminate E0].
-    exists sc. split; [reflexivity|]. match goal with U : check_chain 1000 _ _ sc = Ok ?u |- _ => destruct u; exact U end. }
+    exists sc. split; [reflexivity|].
+    destruct (check_chain 1000 (cl_set c) (fl_version fl) sc) as [[]|]; [reflexivity|discriminate E0]. }
   repeat split; reflexivity.
 Qed.
 
@@ -1003,4 +1004,23 @@ Proof.
     split; [|apply memZ_In; exact B].
     destruct (ch_psk_modes ch) as [m|] eqn:M; [|discriminate A].
     rewrite <- (client_offer_psk_modes _ _ _ H0 M). apply memZ_In. exact A.
+Qed.
+
+Lemma server_chain_agrees_repaired c s o : negotiate c s = Ok o -> fix_dhe_dsa_chain = true ->
+  fl_psk (oc_flight o) = None ->
+  vw_server_chain (oc_client o) = vw_server_chain (oc_server o).
+Proof.
+  intros H. apply negotiate_run in H. destruct H as
+    [ch v suite sig grp fl sv0 cv ccert cvalg npn sv H0 H1 Hv H2 H3 H4 H5 ->
+    |ch v suite sig grp fl0 sv00 alpn fl sv0 cv ccert cvalg sv H0 H1 Hv H2 H3 H4 H5 H6 H7 ->];
+  cbn [oc_client oc_server oc_flight]; intros F P.
+  - destruct (server_legacy_facts _ _ _ _ _ _ H2) as [[F1 [F2 _]] [_ [_ [_ [_ [FC [SC _]]]]]]].
+    destruct (client_legacy_facts _ _ _ _ _ _ _ H4) as [_ [_ [_ [_ [CC _]]]]].
+    destruct (server_legacy_finish_facts _ _ _ _ _ _ _ H5) as [[_ [_ [_ [_ [_ [_ [_ [_ [T9 _]]]]]]]]] _].
+    rewrite CC, T9, SC, FC, F2, F. unfold authed_suite. cbn [andb].
+    destruct (memZ suite certAllSuites || memZ suite ecdheEcdsaSuites || memZ suite dheDsaSuites); reflexivity.
+  - destruct (server_tls13_facts _ _ _ _ _ _ _ _ _ H5) as [_ [_ [_ [_ [_ [FC [_ [SC _]]]]]]]].
+    destruct (client_tls13_facts _ _ _ _ _ _ H6) as [_ [_ [_ [_ [CC _]]]]].
+    destruct (server_tls13_finish_facts _ _ _ _ _ _ H7) as [[_ [_ [_ [_ [_ [_ [_ [_ [_ [T10 _]]]]]]]]]] _].
+    rewrite CC, T10, SC, FC, P. reflexivity.
 Qed.
